@@ -480,14 +480,14 @@ func verifC09Rank(rx, ry, rz int) {}
 //@   requires sameProj(keys) && (len(keys) > 0 ==> keys[0].k.proj != nil)
 //@   modifies keys[0].k.proj
 //@   ensures len(keys) <= 1 ==> out == nil
-//@   ensures len(keys) > 1 ==> forall j int :: 0 <= j < len(out) ==> varies(keys, out[j])
+//@   ensures len(keys) > 1 ==> forall j int :: 0 <= j < len(out) ==> out[j] != nil && varies(keys, out[j])
 //@   ensures len(keys) > 1 ==> forall i int :: 0 <= i < flatLen(old(keys[0].k.proj)) && varies(keys, flatAt(old(keys[0].k.proj), i)) ==>
 //@             exists j int :: 0 <= j < len(out) && out[j] == flatAt(old(keys[0].k.proj), i)
 //@   loop 1:
 //@     invariant 0 <= idx() <= len(fields) && len(fields) == flatLen(old(keys[0].k.proj)) && unchanged(keys[0].k.proj)
 //@     invariant out == nil || (fresh(out) && ref(out) != ref(fields))
 //@     invariant forall i int :: 0 <= i < len(fields) ==> fields[i] == flatAt(old(keys[0].k.proj), i) && fields[i] != nil && fields[i].idx >= 0 && fields[i].proj == old(keys[0].k.proj) && !fields[i].IsTuple
-//@     invariant forall j int :: 0 <= j < len(out) ==> varies(keys, out[j])
+//@     invariant forall j int :: 0 <= j < len(out) ==> out[j] != nil && varies(keys, out[j])
 //@     invariant forall i int :: 0 <= i < idx() && varies(keys, fields[i]) ==> exists j int :: 0 <= j < len(out) && out[j] == fields[i]
 //@     decreases len(fields) - idx()
 //@   loop 2:
